@@ -576,6 +576,53 @@ func c04Gossip(p *Prog, c *Check, accept string) {
 	}
 	c.Floor(rule, nd, 1)
 
+	// D2c: the closure is ADDED to the topic's validators on every path (an existing validator of
+	// another handler for the same message type must not displace or suppress it)
+	rule = "C04-D2c"
+	{
+		afi := p.Info(avi)
+		nreg := 0
+		for _, b := range avi.Blocks {
+			for _, in := range b.Instrs {
+				mu, ok := in.(*ssa.MapUpdate)
+				if !ok || !ParsePat("_.validatorRegistry").Match(afi.T(mu.Map), Binds{}) {
+					continue
+				}
+				nreg++
+				okA := false
+				why := "the topic's validator list is overwritten instead of extended"
+				if call, isCall := mu.Value.(*ssa.Call); isCall {
+					if vals, isApp := appendedValues(call); isApp && len(vals) == 1 {
+						base := afi.T(call.Common().Args[0])
+						mc := asClosure(vals[0])
+						switch {
+						case !ParsePat("_.validatorRegistry[$k]").Match(base, Binds{"k": afi.T(mu.Key)}):
+							why = "the new list is not the old list of the same topic plus the validator: " + base.s
+						case mc == nil || mc.Fn.(*ssa.Function).Parent() != avi:
+							why = "the appended value is not the validator closure built here"
+						default:
+							okA = true
+						}
+					}
+				}
+				if okA {
+					for _, r := range returnsOf(avi) {
+						if !instrDominates(mu, r) {
+							okA = false
+							why = "some path returns without registering the validator"
+						}
+					}
+				}
+				if okA && !ParsePat("Topic($proto)").Match(afi.T(mu.Key), Binds{"proto": afi.T(avi.Params[2])}) {
+					okA = false
+					why = "the validator is registered under a key that is not the prototype's topic"
+				}
+				c.Result(okA, rule, "addValidatorImpl:register", p.siteOf(mu), shortFn(avi), "validatorRegistry[topic] = append(validatorRegistry[topic], validate)", why, "appended on every path")
+			}
+		}
+		c.Floor(rule, nreg, 1)
+	}
+
 	// UnmarshalPubsubMessage: success only through p2pmsg.Unmarshal ok and msg.Validate() == nil
 	rule = "C04-D2b"
 	ump, err := p.Func("p2p.UnmarshalPubsubMessage")
